@@ -434,6 +434,7 @@ func checkMemReader(c *Ctx, rule string, ri *readerInfo) map[token.Pos]bool {
 		}
 		recv := ssa.Value(f.Params[0])
 		ok, form, definite := false, "unrecognised update", false
+		okStep := false
 		lf := func(v ssa.Value, field int) bool {
 			if helperRecv != nil && loadOfField(v, helperRecv, field) {
 				return true
@@ -449,8 +450,45 @@ func checkMemReader(c *Ctx, rule string, ri *readerInfo) map[token.Pos]bool {
 			}
 		case roles.forward:
 			if bo, isB := w.st.Val.(*ssa.BinOp); isB && loadOfField(bo.X, recv, roles.forward) {
-				if _, isConst := bo.Y.(*ssa.Const); isConst {
+				if k, isConst := bo.Y.(*ssa.Const); isConst {
 					definite, form = true, "forward moved by a constant, not by the size of a decoded rune"
+					// a single-byte step is fine where forward is known to be short of the end (the fast path for one-byte runes)
+					if bo.Op == token.ADD && isConstInt(k, 1) {
+						for _, cd := range controlConds(w.st.Block()) {
+							cmp, ok := cd.v.(*ssa.BinOp)
+							if !ok {
+								continue
+							}
+							// len(text[forward:]) != 0
+							if lc, ok := cmp.X.(*ssa.Call); ok && isConstInt(cmp.Y, 0) {
+								if bi, ok := lc.Call.Value.(*ssa.Builtin); ok && bi.Name() == "len" {
+									if sl, ok := lc.Call.Args[0].(*ssa.Slice); ok && loadOfField(sl.X, recv, roles.text) && sl.High == nil && sl.Low != nil && loadOfField(sl.Low, recv, roles.forward) {
+										if (cmp.Op == token.EQL && !cd.pol) || (cmp.Op == token.NEQ && cd.pol) || (cmp.Op == token.GTR && cd.pol) {
+											definite = false
+											okStep = true
+										}
+									}
+								}
+							}
+							if !loadOfField(cmp.X, recv, roles.forward) {
+								continue
+							}
+							call, ok := cmp.Y.(*ssa.Call)
+							if !ok {
+								continue
+							}
+							bi, ok := call.Call.Value.(*ssa.Builtin)
+							if !ok || bi.Name() != "len" || !loadOfField(call.Call.Args[0], recv, roles.text) {
+								continue
+							}
+							if (cmp.Op == token.EQL && !cd.pol) || (cmp.Op == token.NEQ && cd.pol) || (cmp.Op == token.LSS && cd.pol) || (cmp.Op == token.GEQ && !cd.pol) {
+								ok2 := true
+								_ = ok2
+								definite = false
+								okStep = true
+							}
+						}
+					}
 				}
 				switch bo.Op {
 				case token.ADD:
@@ -473,6 +511,28 @@ func checkMemReader(c *Ctx, rule string, ri *readerInfo) map[token.Pos]bool {
 			}
 		}
 		key := fmt.Sprintf("reader: %s updates %s in a way that keeps begin <= forward <= len(text)", shortFn(f), fname(w.field))
+		if okStep && !definite {
+			// one byte is a whole rune only if it is below utf8.RuneSelf: the step must also be dominated by such a test
+			ascii := false
+			for _, cd := range controlConds(w.st.Block()) {
+				cmp, isB := cd.v.(*ssa.BinOp)
+				if !isB || !cd.pol || cmp.Op != token.LSS {
+					continue
+				}
+				k, isK := cmp.Y.(*ssa.Const)
+				if !isK || k.Value == nil || k.Int64() > 128 {
+					continue
+				}
+				if bt, isBasic := cmp.X.Type().Underlying().(*types.Basic); isBasic && bt.Kind() == types.Uint8 {
+					ascii = true
+				}
+			}
+			if ascii {
+				ok, form = true, "forward += 1 where forward < len(text) and the byte there is a one-byte rune"
+			} else {
+				definite, form = true, "forward moved by one byte without knowing that the byte is a whole rune: the pending text can end inside a multi-byte character"
+			}
+		}
 		switch {
 		case ok:
 			c.Pass(rule, key, w.st.Pos(), form)
